@@ -128,6 +128,9 @@ func (w *World) Many(batch []*Rec, foreignAt int, api string) (n int, err error,
 		return 0, nil, false
 	}
 	w.logf(" -> n=%d %s", n, errClass(err))
+	for i, x := range batch {
+		w.lastPut = append(w.lastPut, putRecord{X: x, Want: wants[i], Class: errClass(err), Exp: exp.Verdict, Api: api, Batch: true})
+	}
 	if err == nil {
 		if n != len(objs) {
 			w.fail("batch-count", api, "-", fmt.Sprintf("success but n=%d for %d objects", n, len(objs)))
